@@ -145,7 +145,8 @@ def strip_coq_comments(txt):
 
 def coq_make(targets=(), timeout=1500):
     """Full .vo build of the project (or of some targets) through coq_makefile's Makefile."""
-    if not os.path.exists(os.path.join(COQ, "Makefile")):
+    mk, proj = os.path.join(COQ, "Makefile"), os.path.join(COQ, "_CoqProject")
+    if not os.path.exists(mk) or os.path.getmtime(proj) > os.path.getmtime(mk):
         rc, out, _ = run(["coq_makefile", "-f", "_CoqProject", "-o", "Makefile"], 60, cwd=COQ)
         if rc != 0:
             raise CoqError("coq_makefile failed:\n" + out)
@@ -175,6 +176,20 @@ def coq_check_props(prop_file, timeout=600):
             else:
                 thms.append({"name": nm, "closed": False, "axioms": ["<no Print Assumptions output>"]})
     return rc == 0, thms, out, dt
+
+
+def coq_chk(prop_file, timeout=1800):
+    """Independent re-check (coqchk) of coq/props/<prop_file>.vo and everything it depends on; returns
+    (ok, axioms reported, tail of the output, seconds)."""
+    rc, out, dt = run(["coqchk", "-o", "-silent"] + COQ_FLAGS + ["BasanaProps." + prop_file], timeout, cwd=COQ)
+    m = re.search(r"\* Axioms:(.*?)\n\s*\n\* ", out, re.S)
+    axioms = []
+    if m:
+        axioms = [a.strip() for a in m.group(1).strip().splitlines() if a.strip() and a.strip() != "<none>"]
+    clean = all(re.search(r"\* %s: <none>" % re.escape(k), out) for k in
+                ("Constants/Inductives relying on type-in-type", "Constants/Inductives relying on unsafe (co)fixpoints",
+                 "Inductives whose positivity is assumed"))
+    return rc == 0 and bool(m) and clean, axioms, out[-1500:], dt
 
 
 def coq_eval(name, body, timeout=900):
@@ -358,6 +373,15 @@ class Check:
             self.coverage["props_coqc_s"] = round(dt2, 1)
             ok = ok and ok2
         self.obligations = thms
+        if rc == 0 and ok and self.tier == "thorough":
+            # the deeper tier also runs the independent checker over the property file and all its dependencies
+            okc, chk_axioms, chk_tail, dtc = coq_chk(prop_file)
+            self.coverage["coqchk"] = {"ok": okc, "axioms": chk_axioms, "seconds": round(dtc, 1),
+                                       "cmd": "coqchk -o -silent -Q theories Basana -Q gen BasanaGen -Q props BasanaProps "
+                                              "BasanaProps." + prop_file}
+            if not okc or not set(chk_axioms) <= set(ALLOWED_AXIOMS):
+                ok = False
+                pout += "\n[coqchk]\n" + chk_tail
         allowed = set(ALLOWED_AXIOMS)
         not_closed = [t for t in thms if not t["closed"] and not set(t["axioms"]) <= allowed]
         self.proof_ok = ok and bool(thms) and not not_closed
